@@ -541,7 +541,8 @@ def run(ctx):
 
 
 def _minimise_failures(ctx):
-    """replace the (large) failing tables by the smallest sub-table that still fails with the same key"""
+    """replace the (large) failing tables by the smallest sub-table that still fails with the same key,
+    and re-derive the failure record (row numbers, observed / expected) on that minimal input"""
     fs = list(ctx.failures)
     seen = set()
     out = []
@@ -554,8 +555,9 @@ def _minimise_failures(ctx):
             out.append(f)
             continue
         best = shrink(ctx, full, f['key'])
-        f2 = dict(f)
-        f2['case'] = {k: v for k, v in f['case'].items() if k != 'full'}
+        again = [g for g in failures_of(ctx, best) if g['key'] == f['key']]
+        f2 = dict(again[0]) if again else dict(f)
+        f2['case'] = {k: v for k, v in f2['case'].items() if k != 'full'}
         f2['case']['input'] = best
         f2['case']['H'] = len(best['halo']['hmass'])
         f2['case']['P'] = len(best['part']['phmass'])
@@ -576,7 +578,7 @@ def sub_case(case, hrows, prows):
     return c
 
 
-def fails_with(ctx, case, key):
+def failures_of(ctx, case):
     import vcommon
     sub = vcommon.Ctx(ctx.pid, ctx.tier, ctx.seed)
     sub.driver = ctx.driver
@@ -585,10 +587,14 @@ def fails_with(ctx, case, key):
     try:
         check_case(sub, case, np.random.default_rng(0))
     except Exception:   # noqa: BLE001
-        return False
+        return []
     finally:
         vcommon.log = saved
-    return any(f['key'] == key for f in sub.failures)
+    return sub.failures
+
+
+def fails_with(ctx, case, key):
+    return any(f['key'] == key for f in failures_of(ctx, case))
 
 
 def shrink(ctx, case, key):
